@@ -44,14 +44,28 @@ class Source:
         self.blob = {}
         self._load()
 
+    DEAD = {'topsim/core/workflow.py': 'core.workflow'}     # duplicate class names; indexed only if something imports it
+
     def _load(self):
         root = os.path.join(self.repo, 'topsim')
+        texts = {}
+        for dp, dn, fn in sorted(os.walk(root)):
+            for f in sorted(fn):
+                if f.endswith('.py'):
+                    p = os.path.join(dp, f)
+                    texts[os.path.relpath(p, self.repo)] = open(p).read()
+        self.skipped = []
+        for rel, marker in self.DEAD.items():
+            if rel in texts and not any(marker in t or 'import workflow' in t for r, t in texts.items() if r != rel):
+                self.skipped.append(rel)
         for dp, dn, fn in sorted(os.walk(root)):
             for f in sorted(fn):
                 if not f.endswith('.py'):
                     continue
                 p = os.path.join(dp, f)
                 rel = os.path.relpath(p, self.repo)
+                if rel in self.skipped:
+                    continue
                 txt = open(p).read()
                 self.blob[rel] = hashlib.sha1(txt.encode()).hexdigest()
                 try:
